@@ -89,6 +89,146 @@ theorem finished_is_stable (cfgAllow : Bool) (t : Thread) (n m : Nat)
   | zero => rfl
   | succ m ih => rw [← Nat.add_assoc, steps_succ, ih, step_done _ _ h]
 
+/-! ## schedule and co-runner independence, whole-system form -/
+
+/-- **C20 (no reader changes what another emits).** Reader `j`'s state depends only on how many slots it was
+given: two runs with *different* co-runners (any number, any programs) and *different* schedules leave `j` in
+the same state as soon as they give it the same number of slots. -/
+theorem corunners_and_schedule_irrelevant (cfgAllow : Bool) (ts₁ ts₂ : List Thread) (tr₁ tr₂ : List Nat)
+    (j₁ j₂ : Nat) (t : Thread) (h₁ : ts₁[j₁]? = some t) (h₂ : ts₂[j₂]? = some t)
+    (hc : tr₁.count j₁ = tr₂.count j₂) :
+    (runFixed cfgAllow ts₁ tr₁)[j₁]? = (runFixed cfgAllow ts₂ tr₂)[j₂]? := by
+  rw [runFixed_independent cfgAllow tr₁ ts₁ j₁ t h₁, runFixed_independent cfgAllow tr₂ ts₂ j₂ t h₂, hc]
+
+theorem stepFixed_length (cfgAllow : Bool) (ts : List Thread) (i : Nat) :
+    (stepFixed cfgAllow ts i).length = ts.length := by
+  unfold stepFixed
+  cases ts[i]? <;> simp
+
+theorem runFixed_length (cfgAllow : Bool) (ts : List Thread) (trace : List Nat) :
+    (runFixed cfgAllow ts trace).length = ts.length := by
+  unfold runFixed
+  induction trace generalizing ts with
+  | nil => rfl
+  | cons i tr ih => simp only [List.foldl_cons]; rw [ih, stepFixed_length]
+
+/-- **C20 (whole system).** After any trace the system is, thread by thread, the list of solo runs: the
+interleaved execution of any number of readers equals the product of their sequential executions. -/
+theorem runFixed_eq_solo_runs (cfgAllow : Bool) (ts : List Thread) (trace : List Nat) :
+    runFixed cfgAllow ts trace = ts.mapIdx (fun j t => Thread.steps cfgAllow (trace.count j) t) := by
+  apply List.ext_getElem?
+  intro j
+  rw [List.getElem?_mapIdx]
+  cases hj : ts[j]? with
+  | some t => rw [runFixed_independent cfgAllow trace ts j t hj]; rfl
+  | none =>
+    have hge : ts.length ≤ j := by
+      rcases Nat.lt_or_ge j ts.length with h | h
+      · simp [List.getElem?_eq_getElem h] at hj
+      · exact h
+    rw [List.getElem?_eq_none (by rw [runFixed_length]; exact hge)]; rfl
+
+/-- **C20 (outputs).** At every moment of every interleaving, what the readers have emitted is the list of what
+each has emitted alone after as many of its own steps. -/
+theorem outputs_are_solo_outputs (cfgAllow : Bool) (progs : List (List Act)) (trace : List Nat) :
+    (runFixed cfgAllow (progs.map (Thread.start cfgAllow)) trace).map (·.out)
+      = progs.mapIdx (fun j prog =>
+          (Thread.steps cfgAllow (trace.count j) (Thread.start cfgAllow prog)).out) := by
+  rw [runFixed_eq_solo_runs]
+  apply List.ext_getElem?
+  intro j
+  simp only [List.getElem?_mapIdx, List.getElem?_map]
+  cases progs[j]? <;> rfl
+
+/-- a trace of a system *with* co-runners and the same reader on its own, given as many slots -/
+example : (runFixed true ([storeProg [true, false, true], memberProg true, memberProg false].map (Thread.start true))
+      [1, 0, 2, 1, 0, 1, 2])[0]?
+    = (runFixed true [Thread.start true (storeProg [true, false, true])] [0, 0])[0]? := by decide
+
+/-! ## progress: a reader given as many slots as its program has actions has finished -/
+
+theorem act_todo (cfgAllow : Bool) (t : Thread) (a : Act) : (t.act cfgAllow a).todo = t.todo := by
+  cases a <;> rfl
+
+theorem settle_todo_le (cfgAllow : Bool) (fuel : Nat) (t : Thread) :
+    (Thread.settle cfgAllow fuel t).todo.length ≤ t.todo.length := by
+  induction fuel generalizing t with
+  | zero => exact Nat.le_refl _
+  | succ fuel ih =>
+    unfold Thread.settle
+    cases htd : t.todo with
+    | nil => simp [htd]
+    | cons a rest =>
+      simp only
+      split
+      · simp [htd]
+      · refine Nat.le_trans (ih _) ?_
+        rw [act_todo]; simp
+
+theorem step_todo_lt (cfgAllow : Bool) (t : Thread) (h : t.todo ≠ []) :
+    (t.step cfgAllow).todo.length < t.todo.length := by
+  unfold Thread.step
+  cases htd : t.todo with
+  | nil => exact absurd htd h
+  | cons a rest =>
+    simp only
+    refine Nat.lt_of_le_of_lt (settle_todo_le _ _ _) ?_
+    rw [act_todo]; simp
+
+theorem steps_todo_le (cfgAllow : Bool) (n : Nat) (t : Thread) :
+    (Thread.steps cfgAllow n t).todo.length ≤ t.todo.length - n := by
+  induction n generalizing t with
+  | zero => exact Nat.le_refl _
+  | succ n ih =>
+    simp only [Thread.steps]
+    by_cases h : t.todo = []
+    · rw [step_done _ _ h]; have := ih t; have h0 : t.todo.length = 0 := by simp [h]
+      omega
+    · have h1 := step_todo_lt cfgAllow t h
+      have h2 := ih (t.step cfgAllow)
+      omega
+
+theorem start_todo_le (cfgAllow : Bool) (prog : List Act) :
+    (Thread.start cfgAllow prog).todo.length ≤ prog.length :=
+  settle_todo_le cfgAllow prog.length _
+
+/-- **C20 (progress).** A reader that was given at least as many slots as its program has actions has finished
+— so the hypothesis of `output_is_sequential` is met by every fair-enough trace, by counting. -/
+theorem finished_after_enough_slots (cfgAllow : Bool) (prog : List Act) (n : Nat) (hn : prog.length ≤ n) :
+    (Thread.steps cfgAllow n (Thread.start cfgAllow prog)).todo = [] := by
+  have h1 := steps_todo_le cfgAllow n (Thread.start cfgAllow prog)
+  have h2 := start_todo_le cfgAllow prog
+  exact List.eq_nil_of_length_eq_zero (by omega)
+
+/-- **C20 (result, closed form).** In every interleaving that gives each reader at least as many slots as its
+program has actions, every reader ends with exactly its sequential output `soloOut`. -/
+theorem all_outputs_sequential (cfgAllow : Bool) (progs : List (List Act)) (trace : List Nat)
+    (hfair : ∀ j prog, progs[j]? = some prog → prog.length ≤ trace.count j) :
+    (runFixed cfgAllow (progs.map (Thread.start cfgAllow)) trace).map (·.out)
+      = progs.map (soloOut cfgAllow) := by
+  rw [outputs_are_solo_outputs]
+  apply List.ext_getElem?
+  intro j
+  simp only [List.getElem?_mapIdx, List.getElem?_map]
+  cases hj : progs[j]? with
+  | none => rfl
+  | some prog =>
+    simp only [Option.map_some, soloOut]
+    have hle := hfair j prog hj
+    have hfin := finished_after_enough_slots cfgAllow prog prog.length (Nat.le_refl _)
+    obtain ⟨m, hm⟩ := Nat.exists_eq_add_of_le hle
+    rw [hm, finished_is_stable cfgAllow _ prog.length m hfin]
+
+/-- non-vacuity of `all_outputs_sequential`: three readers, each given enough slots -/
+example : ∀ j prog, [storeProg [true, false], memberProg true, memberProg false][j]? = some prog →
+    prog.length ≤ [0, 1, 2, 0, 1, 2, 1, 2, 0].count j := by
+  intro j prog h
+  match j, h with
+  | 0, h => cases h; decide
+  | 1, h => cases h; decide
+  | 2, h => cases h; decide
+  | n + 3, h => simp at h
+
 /-! ## what the shared cell allowed (the behaviour before the repair, and what a regression looks like) -/
 
 /-- store with one stand-off member, serialised while another thread serialises that member: alone the store
